@@ -56,6 +56,10 @@ def _not_in_list(fn, enum_name: str, subject: str) -> list[str]:
     if len(body) != 1 or not isinstance(body[0], ast.Return):
         raise ValueError(f"{fn.name}: unexpected body")
     e = body[0].value
+    if isinstance(e, ast.UnaryOp) and isinstance(e.op, ast.Not) and isinstance(e.operand, ast.Compare) \
+            and len(e.operand.ops) == 1 and isinstance(e.operand.ops[0], ast.In):
+        # `not x in [...]` is the same decision as `x not in [...]`
+        e = ast.Compare(left=e.operand.left, ops=[ast.NotIn()], comparators=e.operand.comparators)
     if not (isinstance(e, ast.Compare) and len(e.ops) == 1 and isinstance(e.ops[0], ast.NotIn)
             and isinstance(e.left, ast.Name) and e.left.id == subject
             and isinstance(e.comparators[0], (ast.List, ast.Tuple))):
@@ -89,6 +93,58 @@ def _eval_bool_expr(e, env):
     raise ValueError("unsupported expression in _bool_to_exit_code")
 
 
+class _NoReturn(Exception):
+    pass
+
+
+def _eval_bool_body(stmts, env):
+    """evaluator for `_bool_to_exit_code`'s BODY (not only a single top-level `return <expr>`): docstring, `pass`,
+    assignments to a name (plain / annotated), `if/elif/else`, `return <expr>`.  Anything else is rejected.
+    Raises _NoReturn when the statements fall through."""
+    for s in stmts:
+        if isinstance(s, ast.Pass) or (isinstance(s, ast.Expr) and isinstance(s.value, ast.Constant)):
+            continue
+        if isinstance(s, ast.Return):
+            if s.value is None:
+                raise ValueError("bare return in _bool_to_exit_code")
+            return _eval_bool_expr(s.value, env)
+        if isinstance(s, ast.Assign) and len(s.targets) == 1 and isinstance(s.targets[0], ast.Name):
+            env[s.targets[0].id] = _eval_bool_expr(s.value, env)
+            continue
+        if isinstance(s, ast.AnnAssign) and isinstance(s.target, ast.Name):
+            if s.value is not None:
+                env[s.target.id] = _eval_bool_expr(s.value, env)
+            continue
+        if isinstance(s, ast.If):
+            try:
+                return _eval_bool_body(s.body if _eval_bool_expr(s.test, env) else s.orelse, env)
+            except _NoReturn:
+                continue
+        raise ValueError(f"unsupported statement in _bool_to_exit_code: {type(s).__name__}")
+    raise _NoReturn()
+
+
+def eval_bool_to_exit_code(fn) -> tuple:
+    """(exit code for True, exit code for False) of the def `_bool_to_exit_code`"""
+    if len(fn.args.args) != 1:
+        raise ValueError("_bool_to_exit_code: unexpected shape")
+    arg = fn.args.args[0].arg
+    out = []
+    for v in (True, False):
+        try:
+            r = _eval_bool_body(fn.body, {arg: v})
+        except _NoReturn:
+            raise ValueError("_bool_to_exit_code: may fall off the end") from None
+        except KeyError as e:
+            raise ValueError(f"_bool_to_exit_code: unbound name {e}") from None
+        if isinstance(r, bool):
+            r = int(r)
+        if not isinstance(r, int):
+            raise ValueError("_bool_to_exit_code: non-integer result")
+        out.append(r)
+    return tuple(out)
+
+
 def _status_of_test(cmp) -> str | None:
     """`test.status == TestStatus.X` / `t.status == TestStatus.X` -> 'X'"""
     if (isinstance(cmp, ast.Compare) and len(cmp.ops) == 1 and isinstance(cmp.ops[0], ast.Eq)
@@ -99,7 +155,31 @@ def _status_of_test(cmp) -> str | None:
     return None
 
 
-def _junit_children(fn) -> dict[str, list[str]]:
+def _find_add_test_case(junit):
+    """the private function of _junit.py that writes one <testcase>: located by STRUCTURE (its name is a local choice):
+    the only module-level def whose body contains an if-chain that starts with `<x>.status == TestStatus.<m>`"""
+    cands = [n for n in junit.body if isinstance(n, ast.FunctionDef)
+             and any(isinstance(s, ast.If) and _status_of_test(s.test) is not None for s in n.body)]
+    if len(cands) != 1:
+        raise ValueError(f"_junit.py: expected exactly one function with a TestStatus if-chain, found {len(cands)}")
+    return cands[0]
+
+
+def _tag_helpers(junit) -> set:
+    """names of the module-level helpers `h(parent, tag, …)` of _junit.py that add a child `SubElement(parent, tag)`"""
+    out = set()
+    for n in junit.body:
+        if isinstance(n, ast.FunctionDef) and len(n.args.args) >= 2:
+            p0, p1 = n.args.args[0].arg, n.args.args[1].arg
+            for c in ast.walk(n):
+                if isinstance(c, ast.Call) and isinstance(c.func, ast.Name) and c.func.id == "SubElement" \
+                        and len(c.args) >= 2 and isinstance(c.args[0], ast.Name) and c.args[0].id == p0 \
+                        and isinstance(c.args[1], ast.Name) and c.args[1].id == p1:
+                    out.add(n.name)
+    return out
+
+
+def _junit_children(fn, helpers=("_set_with_message",)) -> dict[str, list[str]]:
     """if/elif chain of _add_test_case: status -> list of child tags added via _set_with_message"""
     chain = [s for s in fn.body if isinstance(s, ast.If)]
     if len(chain) != 1:
@@ -114,7 +194,7 @@ def _junit_children(fn) -> dict[str, list[str]]:
         tags = []
         for s in node.body:
             if (isinstance(s, ast.Expr) and isinstance(s.value, ast.Call) and isinstance(s.value.func, ast.Name)
-                    and s.value.func.id == "_set_with_message"):
+                    and s.value.func.id in helpers and len(s.value.args) >= 2):
                 a = s.value.args[1]
                 if not isinstance(a, ast.Constant):
                     raise ValueError("_add_test_case: non-literal tag")
@@ -172,6 +252,14 @@ def _float_units(x: float) -> int:
     return int(fr)
 
 
+def _suite_falsy(suite) -> list[str]:
+    """falsy list of the nested helper of TestSuite.__bool__, located by structure (name / parameter are local choices)"""
+    nested = [n for n in _func(suite, "__bool__").body if isinstance(n, ast.FunctionDef)]
+    if len(nested) != 1 or len(nested[0].args.args) != 1:
+        raise ValueError("TestSuite.__bool__: expected exactly one nested one-parameter helper")
+    return _not_in_list(nested[0], "TestStatus", nested[0].args.args[0].arg)
+
+
 def extract(src) -> dict:
     ts = ast.parse(src("fieldcompare/_cli/_test_suite.py"))
     status = _class(ts, "TestStatus")
@@ -180,12 +268,7 @@ def extract(src) -> dict:
     fcs = _class(fdc, "FieldComparisonStatus")
     common = ast.parse(src("fieldcompare/_cli/_common.py"))
     b2e = _func(common, "_bool_to_exit_code")
-    ret = [s for s in b2e.body if isinstance(s, ast.Return)]
-    if len(ret) != 1 or len(b2e.args.args) != 1:
-        raise ValueError("_bool_to_exit_code: unexpected shape")
-    arg = b2e.args.args[0].arg
-    exit_true = _eval_bool_expr(ret[0].value, {arg: True})
-    exit_false = _eval_bool_expr(ret[0].value, {arg: False})
+    exit_true, exit_false = eval_bool_to_exit_code(b2e)     # whole body is evaluated (early returns, locals)
     junit = ast.parse(src("fieldcompare/_cli/_junit.py"))
     mesh = ast.parse(src("fieldcompare/mesh/_mesh.py"))
     dmr = _func(mesh, "default_mesh_relative_tolerance")
@@ -203,11 +286,11 @@ def extract(src) -> dict:
     return {
         "test_status": _enum_members(status),
         "test_status_falsy": _not_in_list(_func(status, "__bool__"), "TestStatus", "self"),
-        "suite_falsy": _not_in_list(_func(_func(suite, "__bool__"), "_is_true"), "TestStatus", "result"),
+        "suite_falsy": _suite_falsy(suite),
         "fc_status": _enum_members(fcs),
         "fc_status_falsy": _not_in_list(_func(fcs, "__bool__"), "FieldComparisonStatus", "self"),
         "exit_true": int(exit_true), "exit_false": int(exit_false),
-        "junit_children": _junit_children(_func(junit, "_add_test_case")),
+        "junit_children": _junit_children(_find_add_test_case(junit), _tag_helpers(junit)),
         "junit_counts": _junit_counts(_func(junit, "as_junit_xml_element")),
         "mesh_rel_tol_units": _float_units(lit.value),
         "annotation_sep": sep,
